@@ -711,6 +711,24 @@ def pullAt (env : Env) (st : Store) (name : Name) (reg : Option Manifest) (serve
       | some mo => (gcOld env st2 mo.all, ["s"])
       | none => (st2, ["s"])
 
+/-- `create … from F` seen from `parseFromModel`: `nm` is the target (resolved by the handler before anything
+    else), `sn` the name under which the FROM model is looked up (as written in the request — finding N4 — or as
+    `getExistingName` resolves it).  When that manifest file does not exist `PullModel` runs on `sn` (its own
+    `success` status is one more `s` of the event stream), the manifest is read back and the create goes on as
+    for a local FROM; a failed pull ends the request.  NOT an operation of `step` (the oracle composes it for
+    requests whose registry answer is scripted); `createFromPull_good` covers it. -/
+def createFromPull (env : Env) (st : Store) (r : CreateReq) (nm sn : Name) (reg : Manifest)
+    (served : List (String × Bytes)) : Store × List String :=
+  let r' := { r with src := some sn }
+  match st.man sn with
+  | some _ => createAt env st r' nm false
+  | none =>
+    let p := pullAt env st sn (some reg) served
+    if p.2 = ["s"] then
+      let c := createAt env p.1 r' nm false
+      (c.1, "s" :: c.2)
+    else (p.1, ["e500"])
+
 /-! ## operations and the step function -/
 
 /-- the same manifest with its model-layer digests in the dash spelling -/
